@@ -111,3 +111,12 @@ check("C03",
       "variants. Every file is imported by the code and compared on ids, types, seqid, strand, extents, relation rows, db[id] and children(level).",
       TB + "Lines carry both keys; only the columns the statement names are compared for derived features.",
       "TLA+ state-machine spec (GffDB GTF path) + TLC declarative invariants over ordered line selections x flags + spec-generated files replayed on the code")
+
+check("C11",
+      "Select.tla states C11 declaratively (duplicate-free enumeration of the matching set, sorted by the lexicographic key over the requested columns in code-point / "
+      "numeric order, 'length' = end - start, 'file_order' = rowid, DESC for a single column with reverse, input order without order_by and filter) and records what the "
+      "SQL promises in addition (algorithmic layer, drift only). MC_Select shows on all 3-feature databases that a stable SQL-key sort is accepted and a swap of "
+      "differently-keyed neighbours is rejected. Random databases (mixed-case / non-ASCII / numeric-looking seqids and scores, ties) are queried through all_features "
+      "and features_of_type with every filter and order_by form; counts, featuretypes(), seqids(); each answer is judged by Trace_Select.",
+      TB + "Coordinates are present; 'attributes'/'extra' are not ordered on.",
+      "TLA+ declarative spec (Select) + TLC accept/reject lemma for the judge + trace validation of real query results (Trace_Select)")
